@@ -56,5 +56,6 @@ SPEC = dict(
                'exp/pow based families (see harness header); sampled parameter and input spaces; overruns that stay inside the scratch '
                'allocation are only visible through a wrong gain (value-level oracle), not through ASan',
     technique='structured boundary + random input sweep with quad-precision formula oracle, algebraic-law monitors, exact-size heap scratch '
-              'buffer under ASan+UBSan',
+              'buffer under ASan+UBSan'
+              '; float / long double companion harness; C++ member vs C function twin execution on one object',
 )
